@@ -85,7 +85,9 @@ type trCtx struct {
 	noHoist int     // >0: inside the right operand of && / ||, where hoisting would change the evaluation order
 	loop   *trLoopCtx
 	pureDepth int // >0: translating a join as a pure term
-	extraParams []string // explicit iteration orders of the maps ranged over
+	extraParams []string // explicit iteration orders of the maps ranged over, explicit fuels
+	extraTypes  []string
+	markingCall bool
 	norder    int
 	resultTypes []types.Type // result types of the function (of the returned function literal for a curried method)
 	nresults  int // number of results of the function (of the returned function literal for a curried method)
@@ -366,6 +368,8 @@ func (c *trCtx) ident(x *ast.Ident) string {
 			return n
 		}
 		trFail(x.Pos(), "variable %s is used before the translator saw its declaration", x.Name)
+	case *types.Func:
+		return c.funcValue(o, x.Pos())
 	case *types.Nil:
 		ty := c.typeOf(x)
 		if trIsError(ty) {
@@ -378,6 +382,28 @@ func (c *trCtx) ident(x *ast.Ident) string {
 	}
 	trFail(x.Pos(), "identifier %s (%T) is outside the subset", x.Name, obj)
 	return ""
+}
+
+func (c *trCtx) passExtras(tf *trFunc) []string {
+	var names []string
+	for _, ty := range tf.extras {
+		c.norder++
+		n := "extra" + itoa(c.norder)
+		c.extraParams = append(c.extraParams, "("+n+" : "+ty+")")
+		c.extraTypes = append(c.extraTypes, ty)
+		names = append(names, n)
+	}
+	return names
+}
+
+// funcValue: the name of a translated pure function used as a value (argument of a pinned helper)
+func (c *trCtx) funcValue(o *types.Func, pos token.Pos) string {
+	tf := c.t.funcs[o.Origin()]
+	if tf == nil || tf.effect || len(tf.mut) > 0 || tf.norder > 0 {
+		trFail(pos, "the function value %s is not a translated pure function", o.FullName())
+	}
+	c.fn.deps = append(c.fn.deps, tf)
+	return c.t.qname(c.unit(), tf.unit, tf.leanName)
 }
 
 // pkgVar: a package-level variable with a pure initialiser that is never assigned is a Lean definition
@@ -527,6 +553,8 @@ func (c *trCtx) selector(x *ast.SelectorExpr) string {
 	switch o := c.info().Uses[x.Sel].(type) {
 	case *types.Var:
 		return c.pkgVar(o, x.Pos())
+	case *types.Func:
+		return c.funcValue(o, x.Pos())
 	case nil:
 		trFail(x.Pos(), "%s is not declared in the prelude or in a translated package", trSrc(x))
 	}
@@ -710,9 +738,8 @@ func (c *trCtx) call(x *ast.CallExpr) string {
 	if len(tf.mut) > 0 {
 		trFail(x.Pos(), "call of %s (assigns through a pointer or map parameter) inside an expression is outside the subset", full)
 	}
-	if tf.norder > 0 {
-		trFail(x.Pos(), "call of %s, which ranges over a map (its iteration order is an explicit parameter), is outside the subset", full)
-	}
+	// the callee's extra parameters (map iteration orders, explicit fuels) become extra parameters of this function
+	args = append(args, c.passExtras(tf)...)
 	c.fn.deps = append(c.fn.deps, tf)
 	name := c.t.qname(c.unit(), tf.unit, tf.leanName)
 	app := name
